@@ -122,7 +122,8 @@ def _type_time(db, chk, m, cls, G):
         mpt = ("dict", tuple(sorted(((T.C("ts"), T.C(val[ty])), (T.C("end"), T.C(-val[ty]))), key=repr)))
         exp_time.append(("replace", mpt, ("meltval", mb)))
         exp_status.append(("replace", mpt, ("meltvar", mb)))
-    chk.ob(rule, "sort key = the time column: start and end of every merged operand, each exactly once", sorted(tl, key=repr) == sorted(exp_time, key=repr), where,
+    template = bool(tl) and all(isinstance(x, tuple) and x and x[0] == "replace" for x in tl)          # the +-marker sweep built by melt + replace; another construction of the boundaries is not understood (not wrong)
+    chk.ob(rule, "sort key = the time column: start and end of every merged operand, each exactly once", (sorted(tl, key=repr) == sorted(exp_time, key=repr)) if template else None, where,
            found=[T.show(x)[:160] for x in tl], accepted=[T.show(x)[:160] for x in exp_time],
            why="markers {ts:+v, end:-v} with the type's own v; a missing or duplicated operand or a swapped sign breaks the running state")
     STATUS_l = None
@@ -130,7 +131,7 @@ def _type_time(db, chk, m, cls, G):
     if len(run_terms) >= 1:
         RUN = run_terms[0]
         sl = [x for x in leaves(RUN[3]) if x[0] != "coldata"]
-        chk.ob(rule, "running = cumsum of the marker column over the time-sorted rows", RUN[4] == ctx0 and sorted(sl, key=repr) == sorted(exp_status, key=repr), where,
+        chk.ob(rule, "running = cumsum of the marker column over the time-sorted rows", (RUN[4] == ctx0 and sorted(sl, key=repr) == sorted(exp_status, key=repr)) if template else None, where,
                found=[T.show(x)[:120] for x in sl] + [T._ctx(RUN[4])[:80]], accepted="cumsum(status) in time order")
         check_term(chk, rule, "rows kept iff running > 0 (some analysed kernel is running)", where, rows, [T.cmp(">", RUN, T.C(0))],
                    "running >= 0 adds idle gaps to a label; running > v drops single-type time")
